@@ -142,6 +142,13 @@ class Rig:
                              segmentationSupported=cfg.get("s_seg", "segmentedBoth"), vendorID=999)
             iam.pduSource = self.s.addr
             self.c.smap.deviceInfoCache.iam_device_info(iam)
+        if cfg.get("s_knows_c_max"):
+            # the server has heard an I-Am of the client (possibly an older one announcing another max APDU length)
+            from bacpypes.apdu import IAmRequest
+            iam = IAmRequest(iAmDeviceIdentifier=("device", 1), maxAPDULengthAccepted=cfg["s_knows_c_max"],
+                             segmentationSupported=cfg.get("c_seg", "segmentedBoth"), vendorID=999)
+            iam.pduSource = self.c.addr
+            self.s.smap.deviceInfoCache.iam_device_info(iam)
         self.req = coded(cfg["lq"])
         self.resp = coded(cfg["lr"]) if cfg.get("lr") is not None else None
         self.nq = 1                      # segment counts as the state machines compute them (read after Submit / AppRespond)
@@ -208,11 +215,37 @@ class Rig:
     def on_indication(self, peer, apdu):
         if isinstance(apdu, AbortPDU):
             return                      # abort forwarded to the server application: nothing to answer
+        if peer is self.c:
+            # role reversal (pre_exchange): the client node serves a small request of the server node
+            ack = SimpleAckPDU(SERVICE, apdu.apduInvokeID)
+            ack.pduDestination = apdu.pduSource
+            self.c.ase.response(ack)
+            return
         toks = self.toks_of_buffer(apdu.pduData, self.req, "CR")
         self.sind.append({"toks": toks, "ok": bytes(apdu.pduData) == self.req})
         self.sapp.append([vt.now + self.cfg.get("app_delay", 0) / 1000.0, apdu])
 
+    def pre_exchange(self):
+        """Before the transaction under test the server node sends the client node a small confirmed request of its own
+        (roles reversed) and gets it acknowledged: whatever a node learns about its peer from serving it is then in place."""
+        apdu = ConfirmedRequestPDU(SERVICE)
+        apdu.pduDestination = self.c.addr
+        apdu.put_data(b"\x09\x01")
+        self.s.ase.request(apdu)
+        for _ in range(10):
+            if not self.net:
+                break
+            octets, at, d, h = self.net.pop(0)
+            dst, src = (self.s, self.c) if d == "cs" else (self.c, self.s)
+            dst.receive(octets, src.addr)
+        vt.step_all()
+        self.net, self.tx, self.wire, self.cout, self.sind, self.sapp, self.evs = [], [], [], [], [], [], []
+        self.frame_no = 0
+        self.chunk = {"CR": None, "CA": None}
+
     def on_confirmation(self, peer, apdu):
+        if peer is self.s:
+            return                      # outcome of the role-reversed request of pre_exchange
         if isinstance(apdu, (SimpleAckPDU, ComplexAckPDU)):
             k = "ack"
         elif isinstance(apdu, (ErrorPDU, RejectPDU)):
@@ -337,6 +370,16 @@ class Rig:
         self.net[i][1] = vt.now + self.cfg.get("delay_by", 1000) / 1000.0
         self.log("Delay", i + 1)
 
+    def shrink(self, i):
+        """the peer grants a smaller window: the segment ack in flight is rewritten to window 1"""
+        self.tx = []
+        fr = self.net[i]
+        a = bytearray(fr[0])
+        a[3] = 1
+        fr[0] = bytes(a)
+        fr[3] = dict(fr[3], win=1)
+        self.log("Shrink", i + 1)
+
     def timeout(self, who):
         self.tx = []
         cls = ClientSSM if who == "C" else ServerSSM
@@ -426,7 +469,11 @@ class Rig:
                     self.dup(i)
                 elif kind == "delay":
                     self.delay(i)
+                elif kind == "shrink" and self.net[i][3]["k"] == "ACK" and self.net[i][3]["win"] > 1:
+                    self.shrink(i)
                 else:
+                    if kind == "shrink":
+                        self.applied.pop(n, None)
                     self.deliver(i)
         else:
             self.evs.append(dict(ev="Livelock", i=0, exc=None, st=self.snapshot()))
@@ -443,7 +490,7 @@ class Rig:
                     if (i - 1) not in self.deliverable():
                         return self.evs, n
                     self.deliver(i - 1)
-                elif ev in ("Drop", "Dup", "Delay"):
+                elif ev in ("Drop", "Dup", "Delay", "Shrink"):
                     if (i - 1) not in self.deliverable():
                         return self.evs, n
                     getattr(self, ev.lower())(i - 1)
